@@ -922,6 +922,22 @@ func (fr *Frame) execSlice(in *ssa.Slice, st *State) Val {
 		} else {
 			fr.safety("slice", st, and(le("0", lo), le(lo, hi), le(hi, s.Cap)), in.Pos(), "")
 		}
+		// interval arithmetic for the leaves of the result (sound on every path: sums/differences of recorded intervals)
+		ivl := func(term, a, b string, sub bool) {
+			alo, ahi := vc.rangeOf(a, nil)
+			blo, bhi := vc.rangeOf(b, nil)
+			if alo == nil || blo == nil {
+				return
+			}
+			if sub {
+				vc.setRange(term, new(big.Int).Sub(alo, bhi), new(big.Int).Sub(ahi, blo))
+			} else {
+				vc.setRange(term, new(big.Int).Add(alo, blo), new(big.Int).Add(ahi, bhi))
+			}
+		}
+		ivl(plus(s.Off, lo), s.Off, lo, false)
+		ivl(minus(hi, lo), hi, lo, true)
+		ivl(minus(mx, lo), mx, lo, true)
 		return &SliceV{Arr: s.Arr, Off: vc.define("so", "Int", plus(s.Off, lo)), Len: vc.define("sl", "Int", minus(hi, lo)), Cap: vc.define("sc", "Int", minus(mx, lo))}
 	case *types.Basic: // string
 		s := fr.val(in.X).(Scalar).T
